@@ -79,6 +79,7 @@ pub fn pool_shard(
     let mut rep = Reporter::new(&cfg.property);
     let seed = cfg.seed.wrapping_mul(1_000_003).wrapping_add(shard as u64);
     let mut gen = PoolGen::new(seed);
+    gen.fee_variant = shard;
     let mut wcfg = WorldCfg::default();
     // vary the chain / contract configuration across shards
     wcfg.tf_fees = [vec![cosmwasm_std::coin(1_000, "uom")], vec![], vec![cosmwasm_std::coin(500, "uusdc")], vec![cosmwasm_std::coin(1_000, "uom"), cosmwasm_std::coin(300, "uusdt")]][shard % 4].clone();
